@@ -287,6 +287,7 @@ Proof.
   - exact (hi_drag (w :: D) h HI).
   - intros a Ha. destruct (findw h' a) as [c|] eqn:Hf; [|congruence]. destruct (Flive a c Hf) as [_ Hf0].
     apply (hi_nextw (w :: D) h HI). congruence.
+  - exact (hi_nextw_root (w :: D) h HI).
   - exact (hi_nextq (w :: D) h HI).
 Qed.
 
@@ -306,7 +307,7 @@ Qed.
 
 Lemma hinv_weaken : forall D D' h, hinv D h -> (forall a, In a D -> In a D') -> hinv D' h.
 Proof.
-  intros D D' h [K P PL O F R C I RP Q Dg NW NQ] Hsub. constructor; auto.
+  intros D D' h [K P PL O F R C I RP Q Dg NW NWR NQ] Hsub. constructor; auto.
   - intros a c f Hf Hd. apply (F a c f Hf). auto.
   - intros a c Hf Hd. apply (R a c Hf). auto.
 Qed.
